@@ -53,8 +53,10 @@ type oraEnv struct {
 	taxDen   int64
 	t0       int64
 	nof15    bool
+	inf      bool // cfg inf=1: answers "Inf" / "NaN" / 1e999 are sent as such (findings/oraclerandom.md; off in every registered check)
 	last     chain.M
 	maxFeeds int
+	rawv     chain.M
 }
 
 var unit = big.NewInt(100_000_000)
@@ -97,6 +99,7 @@ func newOraEnv(fl *drv.Flags) *oraEnv {
 		taxNum:   fl.CfgInt("taxnum", 1),
 		taxDen:   fl.CfgInt("taxden", 10),
 		nof15:    fl.CfgInt("nof15", 0) == 1,
+		inf:      fl.CfgInt("inf", 0) == 1,
 		maxFeeds: int(fl.CfgInt("maxfeeds", 2)),
 	}
 	accts := map[string]string{}
@@ -137,6 +140,7 @@ func newOraEnv(fl *drv.Flags) *oraEnv {
 	c := e.c
 	e.svc = svcslice.NewEnv(c, svcName, e.provs)
 	e.svc.Names[servicetypes.OraclePriceServiceProvider.String()] = "oraclep"
+	e.svc.Names[chain.ModuleAddr(servicetypes.RequestAccName).String()] = "svcreq"
 	e.svc.RenderOutput = func(output string) (string, int64) {
 		var o struct {
 			Body map[string]json.RawMessage `json:"body"`
@@ -144,11 +148,22 @@ func newOraEnv(fl *drv.Flags) *oraEnv {
 		if err := json.Unmarshal([]byte(output), &o); err != nil {
 			return "nan", 0
 		}
-		raw := strings.Trim(string(o.Body[valuePath]), `"`)
 		if r, ok := o.Body[servicetypes.OraclePriceValueJSONPath]; ok {
-			raw = strings.Trim(string(r), `"`) // an answer of the oracle-price module service
+			// an answer of the oracle-price module service
+			if v, ok := unitsOf(strings.Trim(string(r), `"`)); ok {
+				return "val", v
+			}
+			return "nan", 0
 		}
-		if v, ok := unitsOf(raw); ok {
+		// an answer to a feed: every non-empty output is a valid response; its number is
+		// evaluated on the raw text (payload.go), under the value path its shape belongs to
+		path := valuePath
+		if _, ok := o.Body["data"]; ok {
+			path = pathOf("nested")
+		} else if _, ok := o.Body["vals"]; ok {
+			path = pathOf("index")
+		}
+		if v, ok := answerOf(output, path); ok {
 			return "val", v
 		}
 		return "nan", 0
@@ -266,6 +281,22 @@ func (e *oraEnv) project(ctx sdk.Context) any {
 		h = c.Height + 1
 		inb = false
 	}
+	if e.inf {
+		// (cfg inf=1 only; not read by the trace specification) the stored strings themselves
+		rawv := chain.M{}
+		for _, f := range list {
+			var ds []any
+			for _, fv := range k.GetFeedValues(ctx, f.FeedName) {
+				d := fv.Data
+				if len(d) > 40 {
+					d = fmt.Sprintf("%s...(%d characters)", d[:24], len(d))
+				}
+				ds = append(ds, d)
+			}
+			rawv[f.FeedName] = ds
+		}
+		defer func() { e.rawv = rawv }()
+	}
 	return chain.M{
 		"h": h, "inb": inb, "now": ctx.BlockTime().Unix() - e.t0,
 		"feeds": feeds, "values": values, "vb": vb, "idx": idx,
@@ -278,7 +309,7 @@ func (e *oraEnv) project(ctx sdk.Context) any {
 
 func oraEvent(name, who, feed string) chain.M {
 	return chain.M{"name": name, "who": who, "feed": feed, "agg": "", "lh": int64(0), "provs": []any{}, "thr": int64(0),
-		"cap": int64(0), "timeout": int64(0), "freq": int64(0), "kind": "", "x": int64(0), "dt": int64(0),
+		"cap": int64(0), "timeout": int64(0), "freq": int64(0), "kind": "", "pay": "", "x": int64(0), "dt": int64(0),
 		"rank": int64(0), "aggs": chain.M{}, "code": int64(0), "ok": true, "panic": false, "halt": false}
 }
 
@@ -302,14 +333,32 @@ func (e *oraEnv) norm(ev chain.M) chain.M {
 	}
 	o["provs"] = strList(ev, "provs")
 	o["kind"] = chain.Str(ev, "kind")
+	o["pay"] = chain.Str(ev, "pay")
 	return o
 }
 
+// addrs: provider account names -> bech32 strings.  Names starting with "?" are
+// strings of the wrong kind (Oracle.tla ProvOf says what the code makes of them):
+// "?garbage" not an address, "?valoper" p1's address under the validator-operator
+// prefix, "?upper" p1's address in upper case (bech32 allows it), "?module" the
+// address of the service module's request escrow.
 func (e *oraEnv) addrs(ps []any) []string {
 	var out []string
 	for _, p := range ps {
-		if a, ok := e.c.Accts[p.(string)]; ok {
-			out = append(out, a.Addr.String())
+		name, _ := p.(string)
+		switch name {
+		case "?garbage":
+			out = append(out, "garbage")
+		case "?valoper":
+			out = append(out, sdk.ValAddress(e.c.Accts[e.provs[0]].Addr).String())
+		case "?upper":
+			out = append(out, strings.ToUpper(e.c.Accts[e.provs[0]].Addr.String()))
+		case "?module":
+			out = append(out, chain.ModuleAddr(servicetypes.RequestAccName).String())
+		default:
+			if a, ok := e.c.Accts[name]; ok {
+				out = append(out, a.Addr.String())
+			}
 		}
 	}
 	return out
@@ -320,6 +369,33 @@ func capCoins(v int64) sdk.Coins {
 		return nil
 	}
 	return sdk.NewCoins(sdk.NewInt64Coin(svcslice.Denom, v))
+}
+
+// svcOf: the service a CreateFeed names; pay "nosvc" a service nobody defined, "svccase" the
+// feeds' service in another case.
+func svcOf(pay string) string {
+	switch pay {
+	case "nosvc":
+		return "nosvc"
+	case "svccase":
+		return "Price"
+	}
+	return svcName
+}
+
+// capOf: the service fee cap of a CreateFeed / EditFeed event; pay "btccap" names
+// it in another denomination, "twocap" in two.
+func capOf(ev chain.M) sdk.Coins {
+	v := chain.Num(ev, "cap")
+	if v > 0 {
+		switch chain.Str(ev, "pay") {
+		case "btccap":
+			return sdk.NewCoins(sdk.NewInt64Coin("btc", v))
+		case "twocap":
+			return sdk.NewCoins(sdk.NewInt64Coin("btc", 1), sdk.NewInt64Coin(svcslice.Denom, v))
+		}
+	}
+	return capCoins(v)
 }
 
 func (e *oraEnv) msgOf(ev chain.M) sdk.Msg {
@@ -333,9 +409,9 @@ func (e *oraEnv) msgOf(ev chain.M) sdk.Msg {
 	switch chain.Str(ev, "name") {
 	case "CreateFeed":
 		return &oracletypes.MsgCreateFeed{FeedName: feed, LatestHistory: uint64(chain.Num(ev, "lh")), Description: "d",
-			Creator: a.Addr.String(), ServiceName: svcName, Providers: e.addrs(ev["provs"].([]any)), Input: feedInput,
-			Timeout: chain.Num(ev, "timeout"), ServiceFeeCap: capCoins(chain.Num(ev, "cap")),
-			RepeatedFrequency: uint64(chain.Num(ev, "freq")), AggregateFunc: chain.Str(ev, "agg"), ValueJsonPath: valuePath,
+			Creator: a.Addr.String(), ServiceName: svcOf(chain.Str(ev, "pay")), Providers: e.addrs(ev["provs"].([]any)), Input: feedInput,
+			Timeout: chain.Num(ev, "timeout"), ServiceFeeCap: capOf(ev),
+			RepeatedFrequency: uint64(chain.Num(ev, "freq")), AggregateFunc: chain.Str(ev, "agg"), ValueJsonPath: pathOf(chain.Str(ev, "pay")),
 			ResponseThreshold: uint32(chain.Num(ev, "thr"))}
 	case "StartFeed":
 		return &oracletypes.MsgStartFeed{FeedName: feed, Creator: a.Addr.String()}
@@ -344,7 +420,7 @@ func (e *oraEnv) msgOf(ev chain.M) sdk.Msg {
 	case "EditFeed":
 		return &oracletypes.MsgEditFeed{FeedName: feed, Description: oracletypes.DoNotModify,
 			LatestHistory: uint64(chain.Num(ev, "lh")), Providers: e.addrs(ev["provs"].([]any)),
-			Timeout: chain.Num(ev, "timeout"), ServiceFeeCap: capCoins(chain.Num(ev, "cap")),
+			Timeout: chain.Num(ev, "timeout"), ServiceFeeCap: capOf(ev),
 			RepeatedFrequency: uint64(chain.Num(ev, "freq")), ResponseThreshold: uint32(chain.Num(ev, "thr")),
 			Creator: a.Addr.String()}
 	case "CallPrice":
@@ -385,12 +461,23 @@ func (e *oraEnv) msgOf(ev chain.M) sdk.Msg {
 		}
 		rid := e.svc.RequestID(c.Ctx(), cname, who)
 		msg := &servicetypes.MsgRespondService{RequestId: strings.ToUpper(rid), Provider: a.Addr.String()}
-		if chain.Str(ev, "kind") == "val" {
-			msg.Result = `{"code":200,"message":""}`
-			msg.Output = fmt.Sprintf(`{"header":{},"body":{"%s":%s}}`, valuePath, decOf(chain.Num(ev, "x")))
-		} else {
-			msg.Result = `{"code":500,"message":"no data"}`
+		pay := chain.Str(ev, "pay")
+		switch pay {
+		case "ridlower":
+			msg.RequestId = strings.ToLower(rid)
+		case "ridshort":
+			msg.RequestId = msg.RequestId[:len(msg.RequestId)-2]
 		}
+		// the feed's value path as the real feed record has it
+		path := valuePath
+		if f, found := c.K.Oracle.GetFeed(c.Ctx(), feed); found {
+			path = f.ValueJsonPath
+		}
+		x := chain.Num(ev, "x")
+		if !e.inf && (pay == "strinf" || pay == "strnan" || pay == "huge") {
+			pay = ""
+		}
+		msg.Result, msg.Output = renderAnswer(chain.Str(ev, "kind"), pay, path, x)
 		return msg
 	}
 	return nil
@@ -555,16 +642,69 @@ func oraRun(fl *drv.Flags, beh []chain.M, w *chain.TraceWriter) {
 	if fl.CfgInt("epilogue", 1) == 1 {
 		e.epilogue(w)
 	}
+	if e.inf {
+		bz, _ := json.Marshal(e.rawv)
+		fmt.Printf("oracle: stored feed values at the end of the run: %s\n", bz)
+	}
 }
 
-// epilogue: pause every running feed and run until the open batches expired.
+// epilogue, computed from the REAL chain state (never from what the model expected):
+// every feed the chain has that is not running is restarted by its recorded creator,
+// every request the chain holds is answered by the provider it was put to, then every
+// running feed is paused and the open batches run out (fees of unanswered requests
+// go back).  Whatever the code accepted before — rightly or wrongly — is followed up
+// here and judged by the clauses.
 func (e *oraEnv) epilogue(w *chain.TraceWriter) {
+	feedCtx := func(f string) (fd, cx chain.M, ok bool) {
+		fd, ok = e.last["feeds"].(chain.M)[f].(chain.M)
+		if !ok {
+			return nil, nil, false
+		}
+		cname, _ := fd["ctx"].(string)
+		cx, ok = e.last["ctx"].(chain.M)[cname].(chain.M)
+		return fd, cx, ok
+	}
+	names := func() []string { return chain.SortedKeys(e.last["feeds"].(chain.M)) }
+	creator := func(fd chain.M) (string, bool) {
+		who, _ := fd["creator"].(string)
+		_, ok := e.c.Accts[who]
+		return who, ok
+	}
 	var pending []chain.M
-	feeds := e.last["feeds"].(chain.M)
-	for _, f := range chain.SortedKeys(feeds) {
-		fd := feeds[f].(chain.M)
-		if cx, ok := e.last["ctx"].(chain.M)[fd["ctx"].(string)].(chain.M); ok && cx["state"] == "running" {
-			pending = append(pending, oraEvent("PauseFeed", fd["creator"].(string), f))
+	for _, f := range names() {
+		if fd, cx, ok := feedCtx(f); ok && cx["state"] != "running" {
+			if who, ok := creator(fd); ok {
+				pending = append(pending, oraEvent("StartFeed", who, f))
+			}
+		}
+	}
+	if !e.runBlock(oraEvent("BeginBlock", "", ""), pending, w) {
+		return
+	}
+	pending = nil
+	for i, f := range names() {
+		if _, cx, ok := feedCtx(f); ok {
+			reqs, _ := cx["reqs"].(chain.M)
+			for j, p := range chain.SortedKeys(reqs) {
+				if rq, ok := reqs[p].(chain.M); ok && rq["act"] == true {
+					if _, ok := e.c.Accts[p]; ok {
+						ev := oraEvent("Respond", p, f)
+						ev["kind"], ev["x"] = "val", int64(1+i+2*j)
+						pending = append(pending, ev)
+					}
+				}
+			}
+		}
+	}
+	if !e.runBlock(oraEvent("BeginBlock", "", ""), pending, w) {
+		return
+	}
+	pending = nil
+	for _, f := range names() {
+		if fd, cx, ok := feedCtx(f); ok && cx["state"] == "running" {
+			if who, ok := creator(fd); ok {
+				pending = append(pending, oraEvent("PauseFeed", who, f))
+			}
 		}
 	}
 	if !e.runBlock(oraEvent("BeginBlock", "", ""), pending, w) {
@@ -631,11 +771,52 @@ func (e *oraEnv) randProvs(rng *rand.Rand) []any {
 	return out
 }
 
+// oddName: a name of the wrong kind shaped like the feed name f (another case, a
+// prefix, a longer name, a request-context name, a name ValidateFeedName refuses).
+func oddName(rng *rand.Rand, f string) string {
+	switch rng.Intn(6) {
+	case 0:
+		if u := strings.ToUpper(f); u != f {
+			return u
+		}
+		return strings.ToLower(f)
+	case 1:
+		return f[:1]
+	case 2:
+		return f + "/1"
+	case 3:
+		return "c1"
+	case 4:
+		return "1fa"
+	}
+	return strings.ToUpper(f[:1]) + f[1:]
+}
+
+// provider lists with strings of the wrong kind.  The first five never put the EMPTY address into a
+// stored request context; the last three can ("?garbage" / "?valoper" are no account addresses) and
+// are drawn only under cfg emptyprov=1: a context with provider "" makes every later genesis export
+// unimportable (findings/oraclerandom.md R7-3, a C12 matter), so the histories recorded for C11 / C12
+// (propdefs RECORD, no such flag) stay free of it.
+var oddProvLists = [][]any{{"?upper"}, {"?module", "p2"}, {"p2", "u2"}, {"p1", "?upper"}, {"p1", "p1"},
+	{"p1", "?garbage"}, {"?garbage", "?valoper"}, {"?valoper"}}
+
+// oraRandom: one seeded history.  Besides sensible operations it attempts, with
+// moderate probability, every feed command on feeds in every state (never started,
+// paused, paused for lack of funds, running with no / an open / a fully answered
+// batch) by the creator, by another user and by a provider; answers by users, by
+// providers that were not asked, twice, late, in the block their request expires,
+// written down in every payload class of payload.go; names, provider strings and
+// fee caps of the wrong kind; invalid settings at and beyond the validation limits.
 func oraRandom(fl *drv.Flags, rng *rand.Rand, w *chain.TraceWriter) {
 	e := newOraEnv(fl)
 	e.start(w)
-	names := []string{pairFeed, "fb", "fc"}
+	names := []string{pairFeed, "fb", "FB", "fc"}
 	aggs := []string{"max", "min", "avg"}
+	everybody := e.accounts()
+	oddLists := oddProvLists[:5]
+	if fl.CfgInt("emptyprov", 0) == 1 {
+		oddLists = oddProvLists
+	}
 	for b := 0; b < fl.Len; b++ {
 		begin := oraEvent("BeginBlock", "", "")
 		begin["dt"] = int64(1 + rng.Intn(9))
@@ -646,6 +827,7 @@ func oraRandom(fl *drv.Flags, rng *rand.Rand, w *chain.TraceWriter) {
 		feeds := e.last["feeds"].(chain.M)
 		fnames := chain.SortedKeys(feeds)
 		ctxs := e.last["ctx"].(chain.M)
+		h, _ := e.last["h"].(int64)
 		// the providers answer (or not)
 		for _, f := range fnames {
 			fd := feeds[f].(chain.M)
@@ -657,18 +839,38 @@ func oraRandom(fl *drv.Flags, rng *rand.Rand, w *chain.TraceWriter) {
 			if e.nof15 && fd["agg"] == "max" {
 				allNeg = false
 			}
-			reqs := cx["reqs"].(chain.M)
+			reqs, _ := cx["reqs"].(chain.M)
+			if len(reqs) == 0 && rng.Intn(10) == 0 {
+				// a late answer: the batch has expired and was cleaned up (or there never was one)
+				ev := oraEvent("Respond", pick(rng, e.provs), f)
+				ev["kind"], ev["x"] = "val", int64(5)
+				pending = append(pending, ev)
+			}
 			for _, p := range chain.SortedKeys(reqs) {
-				if !reqs[p].(chain.M)["act"].(bool) || rng.Intn(4) == 0 {
+				rq, _ := reqs[p].(chain.M)
+				lastChance := rq["exp"] == h // answers are still accepted in the block the batch expires in
+				if rq["act"] != true {
+					if rng.Intn(8) == 0 { // a second answer
+						ev := oraEvent("Respond", p, f)
+						ev["kind"], ev["x"] = "val", int64(7)
+						pending = append(pending, ev)
+					}
+					continue
+				}
+				if (!lastChance && rng.Intn(3) == 0) || (lastChance && rng.Intn(8) == 0) {
 					continue
 				}
 				who := p
-				if rng.Intn(10) == 0 {
-					who = pick(rng, e.provs)
+				switch x := rng.Intn(20); {
+				case x < 2:
+					who = pick(rng, e.provs) // possibly a provider that was not asked
+				case x == 2:
+					who = pick(rng, e.users) // a stranger
 				}
 				ev := oraEvent("Respond", who, f)
 				if rng.Intn(5) == 0 {
 					ev["kind"] = "err"
+					ev["pay"] = pick(rng, []string{"", "", "", "err400", "errout", "ridshort"})
 				} else {
 					ev["kind"] = "val"
 					x := randomValue(rng, allNeg)
@@ -676,6 +878,14 @@ func oraRandom(fl *drv.Flags, rng *rand.Rand, w *chain.TraceWriter) {
 						x = -x // keeps known finding F15 out of a run (testing aid)
 					}
 					ev["x"] = x
+					switch y := rng.Intn(20); {
+					case y < 4:
+						ev["pay"] = pick(rng, valuePays)
+					case y < 7:
+						ev["pay"] = pick(rng, oddPays)
+					case y < 9:
+						ev["pay"] = pick(rng, refusedPays)
+					}
 				}
 				pending = append(pending, ev)
 			}
@@ -684,7 +894,7 @@ func oraRandom(fl *drv.Flags, rng *rand.Rand, w *chain.TraceWriter) {
 		for j := rng.Intn(3); j > 0; j-- {
 			switch rng.Intn(6) {
 			case 0, 1, 2:
-				ev := oraEvent("CallPrice", pick(rng, e.users), pick(rng, []string{pairFeed, pairFeed, "fb", "nofeed"}))
+				ev := oraEvent("CallPrice", pick(rng, e.users), pick(rng, []string{pairFeed, pairFeed, "fb", "nofeed", "Btc-stake"}))
 				ev["cap"] = int64(rng.Intn(3))
 				pending = append(pending, ev)
 			case 3, 4:
@@ -702,11 +912,11 @@ func oraRandom(fl *drv.Flags, rng *rand.Rand, w *chain.TraceWriter) {
 			}
 		}
 		// feed management
-		for j := rng.Intn(3); j > 0; j-- {
+		for j := rng.Intn(4); j > 0; j-- {
 			u := pick(rng, e.users)
 			switch x := rng.Intn(20); {
-			case x < 4 && len(fnames) < e.maxFeeds:
-				ev := oraEvent("CreateFeed", u, names[len(fnames)])
+			case x < 5 && len(fnames) < e.maxFeeds:
+				ev := oraEvent("CreateFeed", u, names[len(fnames)%len(names)])
 				ev["agg"] = pick(rng, aggs)
 				ev["lh"] = int64(1 + rng.Intn(4))
 				ps := e.randProvs(rng)
@@ -716,47 +926,115 @@ func oraRandom(fl *drv.Flags, rng *rand.Rand, w *chain.TraceWriter) {
 				to := int64(1 + rng.Intn(int(e.maxTO)))
 				ev["timeout"] = to
 				ev["freq"] = to + int64(rng.Intn(3))
+				ev["pay"] = pick(rng, []string{"", "", "", "nested", "index"})
+				if rng.Intn(12) == 0 {
+					ev["who"] = pick(rng, e.provs) // anybody may create a feed
+				}
+				valid := true
+				switch y := rng.Intn(40); y {
+				case 0:
+					ev["lh"], valid = int64(101*rng.Intn(2)), false
+				case 1:
+					ev["thr"], valid = int64((len(ps)+1)*rng.Intn(2)), false
+				case 2:
+					ev["cap"], valid = int64(0), false
+				case 3:
+					ev["timeout"], valid = int64(0), false
+				case 4:
+					ev["timeout"], ev["freq"], valid = e.maxTO+1, e.maxTO+1, false
+				case 5:
+					ev["timeout"], ev["freq"], valid = int64(2), int64(1), false
+				case 6:
+					ev["agg"], valid = "sum", false
+				case 7:
+					ev["feed"], valid = pick(rng, []string{"", "1fa", "fa b", "fa.x", "-fa", "_fa"}), false
+				case 8:
+					ev["pay"], valid = pick(rng, []string{"btccap", "twocap", "nosvc", "svccase"}), false
+				case 14:
+					ev["agg"], valid = "MAX", false
+				case 9, 10, 11, 12:
+					ps = oddLists[rng.Intn(len(oddLists))]
+					ev["provs"], ev["thr"] = ps, int64(1+rng.Intn(len(ps)))
+					valid = y < 11 // (a guess: the list may be refused; the name stays free then)
+				case 13:
+					if len(fnames) > 0 {
+						ev["feed"], valid = pick(rng, fnames), false
+					}
+				}
 				pending = append(pending, ev)
-				fnames = append(fnames, names[len(fnames)])
+				if valid {
+					fnames = append(fnames, chain.Str(ev, "feed"))
+				}
 			case len(fnames) == 0:
 				continue
 			default:
 				f := pick(rng, fnames)
 				who := u
-				if fd, ok := feeds[f].(chain.M); ok && rng.Intn(5) > 0 {
-					who = fd["creator"].(string)
+				fd, known := feeds[f].(chain.M)
+				switch y := rng.Intn(20); {
+				case y < 11 && known:
+					who, _ = fd["creator"].(string)
+				case y < 15:
+					who = pick(rng, e.provs)
+				case y < 16:
+					who = pick(rng, everybody)
+				}
+				if rng.Intn(16) == 0 {
+					f = oddName(rng, f)
 				}
 				switch {
-				case x == 4:
+				case x == 5:
 					ev := oraEvent("SvcDirect", who, f)
 					ev["kind"] = pick(rng, []string{"pause", "start", "kill"})
 					pending = append(pending, ev)
-				case x < 9:
+				case x < 10:
 					pending = append(pending, oraEvent("StartFeed", who, f))
-				case x < 12:
+				case x < 13:
 					pending = append(pending, oraEvent("PauseFeed", who, f))
 				default:
 					ev := oraEvent("EditFeed", who, f)
-					switch rng.Intn(5) {
+					switch rng.Intn(8) {
 					case 0, 1:
 						ev["lh"] = int64(1 + rng.Intn(4))
+						if rng.Intn(10) == 0 {
+							ev["lh"] = int64(101)
+						}
 					case 2:
-						ev["thr"] = int64(1 + rng.Intn(len(e.provs)))
+						ev["thr"] = int64(1 + rng.Intn(len(e.provs)+1))
 					case 3:
 						ps := e.randProvs(rng)
+						if rng.Intn(4) == 0 {
+							ps = oddLists[rng.Intn(len(oddLists))]
+						}
 						ev["provs"] = ps
 						if rng.Intn(2) == 0 {
 							ev["thr"] = int64(1 + rng.Intn(len(ps)))
+						}
+					case 4:
+						to := int64(1 + rng.Intn(int(e.maxTO)+1)) // now and then beyond the maximum
+						ev["timeout"] = to
+						ev["freq"] = to + int64(rng.Intn(3)) - int64(rng.Intn(8)/7)
+					case 5:
+						ev[pick(rng, []string{"timeout", "freq"})] = int64(1 + rng.Intn(int(e.maxTO)+1))
+					case 6:
+						ev["cap"] = e.price + int64(rng.Intn(7)) - 1
+						if rng.Intn(5) == 0 {
+							ev["pay"] = pick(rng, []string{"btccap", "twocap"})
 						}
 					default:
 						to := int64(1 + rng.Intn(int(e.maxTO)))
 						ev["timeout"] = to
 						ev["freq"] = to + int64(rng.Intn(3))
 						ev["cap"] = e.price + int64(rng.Intn(7)) - 1
+						ev["lh"] = int64(1 + rng.Intn(4))
 					}
 					pending = append(pending, ev)
 				}
 			}
+		}
+		if rng.Intn(2) == 0 {
+			// commands between the answers: an edit or a pause in the very block a batch completes
+			rng.Shuffle(len(pending), func(i, j int) { pending[i], pending[j] = pending[j], pending[i] })
 		}
 		if !e.runBlock(begin, pending, w) {
 			return
